@@ -12,7 +12,9 @@ import (
 var c17Sporks []*definition.Spork
 var c17Height uint64
 
-func verifModelGetAllDefinedSporks(ms *momentumStore) ([]*definition.Spork, error) { return c17Sporks, nil }
+func verifModelGetAllDefinedSporks(ms *momentumStore) ([]*definition.Spork, error) {
+	return c17Sporks, nil
+}
 func verifModelGetFrontierMomentum(ms *momentumStore) (*nom.Momentum, error) {
 	return &nom.Momentum{Height: c17Height}, nil
 }
